@@ -891,7 +891,10 @@ class Ref:
                 endscn = True
         for sub in S.subs:
             r = self.run_monitors(sub)
-            if r is not None:
+            # documented step 3: a monitor's `terminate` stops "the scenario which
+            # instantiated it as in step (1e)", i.e. a sub-scenario returns to its parent;
+            # only `terminate simulation` propagates upwards
+            if r == "endsim":
                 reason = r
         if endscn:
             self.stop_scn(S, "monitor-terminate")
